@@ -91,7 +91,7 @@ func c09VerdictAt(mode, k int) Verdict {
 	return c09Verdicts[mode]
 }
 
-var c09Counts = []uint64{0, 1, 7}
+var c09Counts = []uint64{0, 1, 7, 3}
 
 // C09 scripts (writer does not wait for replies unless stated):
 //
